@@ -22,7 +22,7 @@ CLAIMED = {
              "independent of what the mutator modifies or has a registered transport lemma (C04/C07). Witness "
              "theorems show staleness without verify-first or with a dependent key (five such defects were found "
              "and repaired). Tied to the code by differential histories: ~55 properties + ray / nearest answers "
-             "compared with a freshly built mesh after every step. The generated mutator table is also validated at run time: after every cache-keeping library call the set of cached keys that survived is compared with what the table allows that mutator to keep.",
+             "compared with a freshly built mesh after every step. The generated mutator table is also validated at run time: after every cache-keeping library call the set of cached keys that survived is compared with what the table allows that mutator to keep. The histories are also run on a never-read twin: the data a mutator leaves behind must not depend on what was read before it (recorded finding: merge_vertices consults cached vertex normals). Query structures (both ray engines, containment, nearest point) are warmed by one query, the arrays edited, and asked again with nothing read in between. Anisotropic matrices with entries far below one are a matrix class of their own (defect found and repaired: 50f8597).",
         note="Trusted: Lean kernel (+propext/Classical.choice/Quot.sound), hash injectivity, ast read sets as an "
              "over-approximation of dependencies, the registered transport pairs (normals under similarity: "
              "C04_similarity_normals; vertex-normal weights under similarity assumed). The cached functions "
@@ -40,7 +40,7 @@ CLAIMED = {
              "statement is proved FALSE for the code as it is (witnesses: held view, function routes), which are "
              "the listed known findings. Tied to the code by comparing, after every step of random numpy "
              "programs, the dirty flag of every live object and the staleness of every hash read with the model "
-             "(exact agreement required), and by mesh/path/scene/visual level edits.",
+             "(exact agreement required), and by mesh/path/scene/visual level edits. Histories of the writeable flag (a view taken while the array is frozen, thawed, made writeable, written through) are judged by the oracle.",
         note="Trusted: Lean kernel (+propext/Classical.choice/Quot.sound), hash injectivity, the route table "
              "(which numpy call reaches which override) exercised by the harness. Partial: the property itself "
              "fails on 8 listed routes (known findings) - the theorem covers exactly the complement.",
@@ -79,7 +79,7 @@ CLAIMED = {
              "resolution (C09_cached_get_eq_raw), given the invalidation table regenerated from transforms.py on "
              "every run (decide). Witnesses: stale answer without the hash reset; cached/uncached disagree on a "
              "4-cycle (outside the property's domain). Tied to the code by differential histories on float-exact "
-             "matrices against the model and against a dictionary forest.",
+             "matrices against the model and against a dictionary forest. C09_edgelist_roundtrip: the graph rebuilt by from_edgelist from to_edgelist of any well-formed forest resolves every pair of frames as the original (C09_edgelist_rebuilt gives the rebuilt edges and parents explicitly); exported and rebuilt edge lists and parents are compared with the code. Edge matrices include non-uniform scale and shear with exact inverses.",
         note="Trusted: Lean kernel (+propext/Classical.choice/Quot.sound), the forest hash taken as injective, "
              "np.linalg.inv / multi_dot as exact group operations on the generated matrix family; kwargs_to_matrix "
              "trigonometry and fix_rigid only by correspondence at 1e-9. One defect repaired (re-parenting left the "
@@ -96,7 +96,7 @@ CLAIMED = {
              "apex independent; at the centroid the code's tensor is the inertia about it (parallel axis), density "
              "is linear; with an overridden centre the gap to the inertia about that point is an explicit formula "
              "(known finding). The driver evaluates the traced polynomials (proved equal at K=Q) and the exact "
-             "moments on rational inputs and the implementation's float results are compared at 1e-10. Since registration: Trimesh.moment_inertia_frame -> inertia.transform_inertia is traced from the source as well (Generated/C03Frame.lean) and C03_frame_law proves that output equal to the exact inertia tensor about the frame origin in frame coordinates for every orthonormal frame (parallel-axis shift + change of axes, nine entries); the driver evaluates the traced polynomials and the harness compares them on rational rotations and left-handed frames.",
+             "moments on rational inputs and the implementation's float results are compared at 1e-10. Since registration: Trimesh.moment_inertia_frame -> inertia.transform_inertia is traced from the source as well (Generated/C03Frame.lean) and C03_frame_law proves that output equal to the exact inertia tensor about the frame origin in frame coordinates for every orthonormal frame (parallel-axis shift + change of axes, nine entries); the driver evaluates the traced polynomials and the harness compares them on rational rotations and left-handed frames. The exact solids are also placed in other units of length (exact powers of two down to 2^-20): a defect found this way (centre of mass at the origin for every solid of volume below 1e-13) was repaired (5b88fe7) and the symbolic tracer follows the new relative threshold.",
         note="Trusted: Lean kernel (+propext/Classical.choice/Quot.sound), the symbolic tracer, the closed-form "
              "tetrahedron moments as the definition of the exact integrals (divergence theorem not formalised: "
              "cone decomposition + apex independence instead), float64 rounding only through the comparison; "
@@ -129,7 +129,7 @@ CLAIMED = {
              "neighbours by counting, and connected components = reflexive-transitive closure of adjacency "
              "(label relaxation proved sound and complete, so the result is engine independent). Tied to the "
              "code by an exact differential run of every query on both graph engines, exhaustive small scopes "
-             "in the thorough tier; the angle-defect law is checked numerically on closed meshes. Since registration: C05_defect_sum / C05_gauss_bonnet (angle-defect law for any mesh and discrete Gauss-Bonnet on closed surfaces, corner angles a parameter constrained to sum to pi per face); both hypotheses are evaluated on the implementation.",
+             "in the thorough tier; the angle-defect law is checked numerically on closed meshes. Since registration: C05_defect_sum / C05_gauss_bonnet (angle-defect law for any mesh and discrete Gauss-Bonnet on closed surfaces, corner angles a parameter constrained to sum to pi per face); both hypotheses are evaluated on the implementation. C05_unshared / C05_unshared_manifold (unshared vertices by counting), generated obligation C05_edges_of_source (edge order of faces_to_edges and the tiling of the face index read from the source by ast). Topological queries are asked again after a transform that follows earlier queries.",
         note="Trusted: Lean kernel (+propext/Classical.choice/Quot.sound), the Python harness; scipy csgraph / "
              "networkx are modelled by label relaxation (contract: connected components); vertex_defects "
              "(arccos) only by correspondence at 1e-9; degree counts one per occurrence of a vertex index.",
@@ -143,7 +143,7 @@ CLAIMED = {
              "index/inverse reconstruct the input with first-occurrence representatives (C06_unique, "
              "C06_unique_rows). The model is tied to the code by a differential run (bit-exact hashes, groups as "
              "sets, indices, blocks) on boundary-magnitude arrays; blocks/merge_runs/bincount/boolean_rows are "
-             "modelled and compared, not yet proved. Since registration: theorems for merge_runs, group_min, boolean_rows and for blocks without wrap-around (= specification; the runs tile the index range; a block is exactly a maximal run passing the filter); the two known wrap-around defects are stated as witnesses. Generated obligation C06_packing_constants_of_source (column limit, precision, threshold, offset, shift and both strict guard comparisons of hashable_rows recovered by ast); C06_blocks_wrap_unfiltered_partial.",
+             "modelled and compared, not yet proved. Since registration: theorems for merge_runs, group_min, boolean_rows and for blocks without wrap-around (= specification; the runs tile the index range; a block is exactly a maximal run passing the filter); the two known wrap-around defects are stated as witnesses. Generated obligation C06_packing_constants_of_source (column limit, precision, threshold, offset, shift and both strict guard comparisons of hashable_rows recovered by ast); C06_blocks_wrap_unfiltered_partial. Tolerances given as powers of ten (decimal_to_digits for 1e-1..1e-15, float rows a tolerance apart with digits=None) are judged by the oracle.",
         note="Trusted: Lean kernel (+propext/Classical.choice/Quot.sound where reported), the Python harness; "
              "np.argsort/np.unique modelled as a stable sort; float quantisation only via correspondence. "
              "Known findings: two blocks(wrap=True) defects.",
@@ -178,7 +178,7 @@ CLAIMED = {
              "volume, triangles, dump / to_mesh, convex hull containment against explicit placement read straight "
              "from node data, interleaved graph / geometry edits, delete + re-add, copy, scaled, rezero, "
              "apply_transform, +, append_scenes of >=3 scenes sharing node names, subscene, convert_units, and "
-             "source-unchanged checks. Executable rational copies of placed / lower / upper / nodeLower / nodeUpper (Model/GeomRat.lean) are proved equal to the generic definitions by rfl (C10_rat_model_is_generic) and the driver folds them over the final scene of every case (world transforms and geometry points as exact rationals): Scene.bounds must equal the model's bounds. Since registration: the node-renaming loop of append_scenes is modelled and proved never to merge nodes of different scenes (C10_append_no_merge) and to be one-to-one inside a scene; the real append_scenes (with predictable identifiers) is compared edge for edge with the model.",
+             "source-unchanged checks. Executable rational copies of placed / lower / upper / nodeLower / nodeUpper (Model/GeomRat.lean) are proved equal to the generic definitions by rfl (C10_rat_model_is_generic) and the driver folds them over the final scene of every case (world transforms and geometry points as exact rationals): Scene.bounds must equal the model's bounds. Since registration: the node-renaming loop of append_scenes is modelled and proved never to merge nodes of different scenes (C10_append_no_merge) and to be one-to-one inside a scene; the real append_scenes (with predictable identifiers) is compared edge for edge with the model. C10_scaled_per_axis_partial: Scene.scaled with a factor per axis is exact along every chain of frames whose linear parts commute with diag(s); C10_scaled_per_axis_witness shows it is not otherwise (the recorded finding); scenes with commuting frames must scale exactly.",
         note="Trusted: Lean kernel (+propext/Classical.choice/Quot.sound), C09 for world transforms, float64 on the "
              "exact matrix family. Partial: the transformer methods are checked by correspondence only. Known "
              "findings: per-axis scaled() under rotated nodes; subscene drops the root node's own instance. One "
@@ -278,7 +278,7 @@ CLAIMED = {
              "every point; an accepted minimality certificate (support points + convex weights) proves that "
              "every enclosing ball has radius >= r - eps. Inputs: gaussian, lattice, clustered (spread 1e-2 .. "
              "1e-6), flat, scaled, far, spherical, cylindrical, elongated clouds and non-convex meshes, as "
-             "PointCloud or mesh, moved rigidly; option combinations (normal=, ordered, angle_digits). Planar oriented bounds are judged by the same verified box checker (embedded in z = 0).",
+             "PointCloud or mesh, moved rigidly; option combinations (normal=, ordered, angle_digits). Planar oriented bounds are judged by the same verified box checker (embedded in z = 0). Meshes that pass the tolerance test is_convex without being their own hull (a dent of a few millionths, a vertex no face uses) go through the verified hull checker.",
         note="Trusted: Lean kernel (+propext/Classical.choice/Quot.sound); qhull / scipy are certified per output, "
              "not modelled; the certificate search (nnls) and the enumeration of support sets used to separate "
              "'not minimal' from 'certificate not found' are harness code; 2D oriented bounds are judged by a Python oracle only (no theorem). "
@@ -317,7 +317,7 @@ CLAIMED = {
              "geometry, copied by .copy() / copy.copy / copy.deepcopy / include_cache in states with values computed, "
              "edited in place or painted right before the copy, are walked and shipped to the Lean checker; "
              "faithfulness is compared observable by observable and 14 edit classes are applied to either side "
-             "with a re-read of the other.",
+             "with a re-read of the other. Everything a colour visual reports is observed; generated colour arrays are read before the copy and painted in place afterwards; the object-graph walk covers the caches of visuals.",
         note="Trusted: Lean kernel (+propext/Classical.choice/Quot.sound), the Python object-graph walker (what "
              "counts as reachable mutable state; cached derived values are results, not state), C-level state of "
              "rtree/embree not walked. Known finding: copy.copy of non-Trimesh classes is shallow. Five defects "
@@ -333,7 +333,7 @@ CLAIMED = {
              "run (encoded arrays compared element by element, long runs at the dtype limits, list/array, "
              "sorted/unsorted/repeated indices). The lazy Encoding classes/views, the voxel grid index<->point "
              "maps, volume and binvox export/reload are checked against the dense specification by the "
-             "correspondence only (partial). Since registration: the index maps of the lazy views (ravel / unravel for any shape, flip, reshape, transpose) are modelled and proved (C13_ravel_unravel, C13_flip_view, C13_reshape_view, C13_transpose_view_partial + 3-cycle witness) and compared with _to_base_indices / _from_base_indices of the real view classes. Grid addressing (points_to_indices / indices_to_points, np.round ties to even): C13_grid, C13_grid_ties, compared exactly on dyadic grids. Run-length operations are also run on encoded data held in the narrow count dtype (found and repaired: accumulated counts wrapped, fix bb728e5).",
+             "correspondence only (partial). Since registration: the index maps of the lazy views (ravel / unravel for any shape, flip, reshape, transpose) are modelled and proved (C13_ravel_unravel, C13_flip_view, C13_reshape_view, C13_transpose_view_partial + 3-cycle witness) and compared with _to_base_indices / _from_base_indices of the real view classes. Grid addressing (points_to_indices / indices_to_points, np.round ties to even): C13_grid, C13_grid_ties, compared exactly on dyadic grids. Run-length operations are also run on encoded data held in the narrow count dtype (found and repaired: accumulated counts wrapped, fix bb728e5). Generated obligation C13_grid_of_source: the in-place arithmetic of points_to_indices / indices_to_points read from voxel/ops.py by ast is the model's.",
         note="Trusted: Lean kernel (+propext/Classical.choice/Quot.sound), the Python harness, numpy as the dense "
              "specification. Not proved: the Encoding view classes (the known findings list their broken reads by "
              "(encoding, read, failure kind, view)), VoxelGrid transforms.",
@@ -349,7 +349,7 @@ CLAIMED = {
              "a face negates its area vector and volume contribution. fix_normals / fix_winding / fix_inversion, "
              "fill_holes, subdivide_to_size and subdivide_loop are tied to these statements by the differential "
              "run (all / random re-winding subsets incl. whole bodies of unequal size, every single and double "
-             "face removal, edge bounds around the longest edge). Executable rational copies of children / childFaces (Model/GeomRat.lean) are proved equal to the generic definitions by rfl (C18_rat_model_is_generic), subdivision of any triangle list keeps the signed volume (C18_rat_subdivide_volume), and the driver's children are compared triangle by triangle with Trimesh.subdivide. Since registration: C18_fix_winding (the traversal of repair.fix_winding along any spanning search forest leaves every adjacent pair consistent on an orientable surface, whatever the start faces and order) and the reversed faces of the real fix_winding are compared with the traversal model on every case. C18_to_size: subdivide_to_size face by face - no edge above the bound on success, the longest edge halves exactly, success within max_iter passes whenever the longest edge is at most 2^max_iter bounds; a Rat instance is compared with the code (success, face count, longest edge).",
+             "face removal, edge bounds around the longest edge). Executable rational copies of children / childFaces (Model/GeomRat.lean) are proved equal to the generic definitions by rfl (C18_rat_model_is_generic), subdivision of any triangle list keeps the signed volume (C18_rat_subdivide_volume), and the driver's children are compared triangle by triangle with Trimesh.subdivide. Since registration: C18_fix_winding (the traversal of repair.fix_winding along any spanning search forest leaves every adjacent pair consistent on an orientable surface, whatever the start faces and order) and the reversed faces of the real fix_winding are compared with the traversal model on every case. C18_to_size: subdivide_to_size face by face - no edge above the bound on success, the longest edge halves exactly, success within max_iter passes whenever the longest edge is at most 2^max_iter bounds; a Rat instance is compared with the code (success, face count, longest edge). Generated obligation C18_child_pattern_of_source: the column pattern remesh.subdivide stacks and the edge order of faces_to_edges, read by ast, give exactly the model's childFaces.",
         note="Trusted: Lean kernel (+propext/Classical.choice/Quot.sound), float64 on dyadic inputs. Partial: the "
              "BFS winding repair and hole filling are checked by correspondence only (networkx traversal not "
              "modelled). Known finding: fill_holes on a tetrahedron missing two faces.",
